@@ -1,6 +1,8 @@
 HOOK_COMMITS = ["4172cbf", "74fb8b3", "113d79e", "16481f2", "a8453e3", "1565b2c"]
 
 ENGINES = [
+    {"name": "num", "path": "engines/num.c", "serves_properties": ["C18", "C11"],
+     "kind_free_text": "calls the real numerical library with the calling LP's xoshiro256** state crafted (closed-form inversion, verified by stepping the real recurrence) so the next 1..3 raw outputs are boundary values; range/finiteness/isolation assertions + UBSan/ASan"},
     {"name": "part", "path": "engines/part.c", "serves_properties": ["C14"],
      "kind_free_text": "harness TU that #includes the real lp/lp.c with stubbed callees; runs lp_global_init/lp_init/lp_fini for every rank and thread of a triple"},
     {"name": "order", "path": "engines/order.c", "serves_properties": ["C16"],
@@ -8,6 +10,13 @@ ENGINES = [
 ]
 
 CHECKS = {
+    "C18": {
+        "engine": "num",
+        "technique": "runtime assertions + UBSan on the real library with crafted generator states (boundary raw outputs) and random states",
+        "text": "Every library function is called with the caller's generator state solved so that its 1st/2nd/3rd raw output is 0, 1, 2^k-1, 2^k, 2^k+1 (all k), mantissa-cut neighbours, 2^64-1 and neighbours, all triples of a 13-value set, single-bit states, plus 1.4M (quick) / 19M (thorough) random states; asserts range, finiteness, non-negativity, that only the caller's generator moves, and that UBSan/ASan stay silent. It found and now guards F1 (shift by 64) and F2 (Gamma inf).",
+        "design_ref": "DESIGN.md section 4, C18",
+        "note": "Not all 2^64 outputs: boundary classes + random sampling. Argument domains as documented in the evidence assumptions. Distribution quality is not checked (not part of the property).",
+    },
     "C14": {
         "engine": "part",
         "technique": "runtime oracle on the real partitioning code: ownership/routing invariants asserted for every (LPs, ranks, threads) triple of a box, under ASan/UBSan",
